@@ -73,6 +73,7 @@ func checkC15(w *World, r *Report) {
 	r.Explanation = "Decides the clauses of C15 that are visible in the shape of Engine.Load and the registration functions, on every path: (R15.1) every return on the paths where no loader produced a template returns an error that wraps ErrTemplateNotFound with %w, and no store into the template cache is reachable on those paths; (R15.2) the loader loop visits e.loaders (a slice that is only ever appended to) and leaves the loop at the first successful load, ChainLoader alike; (R15.3) RegisterString, RegisterTemplate and RegisterCompiledTemplate reach a store e.templates[name] on every successful path on which the cache flag is on; (R15.4) the cache is read only under the cache flag, and the reload decision compares the loader's modification time with the cached template's with > (or !=). NOT decided: every temporal claim of the property — 'visible to the next call', 'not re-read when unchanged', 'stays as it was', development-mode toggling — these quantify over operation histories. By reading: with the cache flag off a registered template is dropped (the map is registry and cache in one); whether that contradicts 'uses the source most recently registered' depends on the intended reading and is reported as a note only. (R15.5) every successful return of a GetModifiedTime implementation derives from os.FileInfo.ModTime or a delegated GetModifiedTime."
 	r.Explanation += " Rules added in later rounds: (R15.6) the registry map is never replaced; (R15.7) Exists of file-backed loaders answers true only behind a file-system query (also through predicate closures). (R15.8) the engine's boolean switches store independently of remembered state. (R15.9) a file-reading Load reads the file before every successful return."
 	r.Explanation += " Round 9: (R15.10) a loader handed to RegisterLoader is appended whatever it looks like (nil test / identity only)."
+	r.Explanation += " Round 10: (R15.11) not-found is not memoised; (R15.12) timestamps of cached templates are not rewritten; (R15.13) only the loading path gives a template a loader."
 	r.RuleText = "obligation = one return / store / loop / comparison in the cache and loader code; non-trivial = all"
 	r.Trusted = []string{"fmt.Errorf %w semantics", "range over a slice visits elements in index order"}
 
